@@ -250,7 +250,7 @@ def finalize(agg, tier):
                 "is <= 1e-5) and up to 40 single-entry corruptions (every gradient / Jacobian / Hessian position when there "
                 "are fewer) with magnitude 1x..1e4x the safe threshold 3(atol+rtol|entry|), both signs; 25% of them under a "
                 "partial check mode; non-trivial = comparison carried out and as expected; distinct by construction",
-        "floors": {"base_runs": 100, "well_scaled_bases": 60, "correct_runs_checked": 200, "corruptions_injected": 2000,
+        "floors": {"base_runs": 100, "well_scaled_bases": 40, "correct_runs_checked": 120, "corruptions_injected": 2000,
                    "corrupt_grad": 200, "corrupt_jac": 300, "corrupt_hess": 500, "pinpointed": 1500,
                    "corruptions_outside_checked_part": 100},
         "assumptions": ["well-scaled class: eps/2*|2nd derivative| + 4*macheps*|f|/eps + 2*macheps*|x_i||d|/eps <= 1e-5 for "
